@@ -49,6 +49,10 @@ pub fn build_input(with_names: bool, prod: usize, dwarf: bool) -> Vec<u8> {
         for (n, d) in wdwarf::minimal_sections(&m.build()) {
             m.customs.push((12, n, d));
         }
+        // DWARF sections outside the set a DWARF reader needs (producers emit them too)
+        for n in [".debug_pubnames", ".debug_pubtypes", ".debug_frame", ".debug_macro", ".debug_names"] {
+            m.customs.push((12, n.to_string(), vec![0, 0, 0, 0]));
+        }
     }
     // an uninterpreted custom section that must never be affected by any switch
     m.customs.push((5, "keepme".into(), vec![1, 2, 3]));
